@@ -508,7 +508,8 @@ class C17(Check):
     quick = dict(runs=300000, wall=100)
     thorough = dict(runs=6000000, wall=1500)
     rule = ("case = initial state of two configuration directories (absent / empty / .registered / .unregistered / both / planted "
-            "symlinks to a file, a dangling path, a file in the other directory, a directory) x identifier file (absent, canonical, "
+            "symlinks to a file, a dangling path, a file in the other directory, the same-named marker of the other directory, a "
+            "directory) x identifier file (absent, canonical, "
             "un-hyphenated legacy, upper-case, trailing newline, padded, empty, blank, garbage, non-v4) x history of 1-30 (thorough "
             "40) operations: generate_machine_id() read / new=True, write_registered_file, write_unregistered_file, delete_*_file, "
             "environment events between operations (marker deleted, symlink planted, directory removed/recreated, subscription "
